@@ -168,19 +168,21 @@ func (w *World) exploreAfterError(s errSite, cont *ssa.Function, visit func(in s
 			facts[ex] = absYes
 		}
 	}
+	okAll := true
+	desc := w.errDescend(cont, visit, &okAll)
 	if s.Fn == cont {
-		_, ok := w.absExplore(cont, s.ErrSucc, s.Block, facts, 0, func(x ssa.Instruction, st *absState) { visit(x, st, true) })
-		return ok
+		_, ok := w.absExploreX(cont, s.ErrSucc, s.Block, facts, 0, func(x ssa.Instruction, st *absState) { visit(x, st, true) }, desc)
+		return ok && okAll
 	}
 	// inside a helper: explore to its returns, collecting the counter values
 	counts := map[int]bool{}
-	_, ok := w.absExplore(s.Fn, s.ErrSucc, s.Block, facts, 0, func(x ssa.Instruction, st *absState) {
+	_, ok := w.absExploreX(s.Fn, s.ErrSucc, s.Block, facts, 0, func(x ssa.Instruction, st *absState) {
 		visit(x, st, false)
 		if _, isRet := x.(*ssa.Return); isRet {
 			counts[st.Count] = true
 		}
-	})
-	if !ok {
+	}, desc)
+	if !ok || !okAll {
 		return false
 	}
 	// continue in the container loop after every call of the helper
@@ -210,10 +212,37 @@ func (w *World) exploreAfterError(s errSite, cont *ssa.Function, visit func(in s
 	return true
 }
 
+// errDescendable: private helpers of the container loop whose bodies the error-flow rules look into.
+func (w *World) errDescendable(cont, callee *ssa.Function) bool {
+	return callee != nil && callee.Blocks != nil && w.unit(cont)[callee] && !w.renderLike()[callee] && callee != cont
+}
+
+// errDescend: descend into the container loop's private helpers with the facts known about
+// the arguments (an error handed to a shutdown helper is still known to be non-nil there).
+func (w *World) errDescend(cont *ssa.Function, visit func(in ssa.Instruction, st *absState, inCont bool), okAll *bool) absDescend {
+	depth := 0
+	var desc absDescend
+	desc = func(call *ssa.Call, st *absState) ([]int, bool) {
+		callee := call.Call.StaticCallee()
+		if !w.errDescendable(cont, callee) || depth >= 3 {
+			return nil, false
+		}
+		depth++
+		counts, ok := w.absSummary(callee, call, st, func(x ssa.Instruction, s2 *absState) { visit(x, s2, false) }, desc)
+		depth--
+		if !ok {
+			*okAll = false
+		}
+		return counts, true
+	}
+	return desc
+}
+
 func (w *World) exploreAfterCall(cont *ssa.Function, call *ssa.Call, count0 int, visit func(in ssa.Instruction, st *absState, inCont bool)) bool {
 	started := false
 	b := call.Block()
-	_, ok := w.absExplore(cont, b, nil, nil, count0, func(x ssa.Instruction, st *absState) {
+	okAll := true
+	_, ok := w.absExploreX(cont, b, nil, nil, count0, func(x ssa.Instruction, st *absState) {
 		if !started {
 			if x == ssa.Instruction(call) {
 				started = true
@@ -221,8 +250,13 @@ func (w *World) exploreAfterCall(cont *ssa.Function, call *ssa.Call, count0 int,
 			return
 		}
 		visit(x, st, true)
+	}, func(c *ssa.Call, st *absState) ([]int, bool) {
+		if !started || c == call {
+			return nil, false
+		}
+		return w.errDescend(cont, visit, &okAll)(c, st)
 	})
-	return ok
+	return ok && okAll
 }
 
 // checkNoRenderAfterError: from every edge on which a render(-like) call returned a non-nil
@@ -245,7 +279,7 @@ func checkNoRenderAfterError(w *World, r *Report, rule string) {
 			if !isCall {
 				return
 			}
-			if rl[c2.Call.StaticCallee()] || (c2.Call.StaticCallee() != nil && helperHasSite(sites, c2.Call.StaticCallee())) {
+			if rl[c2.Call.StaticCallee()] || (c2.Call.StaticCallee() != nil && helperHasSite(sites, c2.Call.StaticCallee()) && !w.errDescendable(cont, c2.Call.StaticCallee())) {
 				bad = "render (" + w.instrPos(x) + ") is reachable after a render error: the abandon channel would be closed twice and frames written after the error"
 			}
 		})
